@@ -169,6 +169,27 @@ func c04Values(r *eng.Run) {
 		}
 		count("1:digits<=k x exponents", n)
 	})
+	// family 1c: every (mantissa digit count 1..17, exponent -45..45) cell of the exact-arithmetic
+	// tier and its borders, several mantissa patterns per digit count, both signs
+	eng.Parallel(17, func(i int) {
+		d := i + 1
+		n := 0
+		pats := []string{strings.Repeat("9", d), "1" + strings.Repeat("0", d-1), ("12345678901234567")[:d], ("98233876543219876")[:d], ("59584923123456789")[:d], "7" + strings.Repeat("3", d-1)}
+		for _, m := range pats {
+			for e := -45; e <= 45; e++ {
+				es := strconv.Itoa(e)
+				for _, sign := range []string{"", "-"} {
+					one(sign+m+"e"+es, "exact-tier")
+					n++
+					if d > 1 {
+						one(sign+m[:1]+"."+m[1:]+"E"+es, "exact-tier")
+						n++
+					}
+				}
+			}
+		}
+		count("1c:exact-tier cells", n)
+	})
 	// leading-zero fractions up to 25 zeros (the 19-digit counter counts leading zeros)
 	eng.Parallel(26, func(z int) {
 		n := 0
